@@ -259,6 +259,7 @@ def validate_headers(
     path: Optional[bytes] = None
     scheme: Optional[bytes] = None
     seen_pseudo_headers: Set[bytes] = set()
+    declared_content_length: Optional[int] = None
     for key, value in headers:
         validate_header_name(key)
         validate_header_value(key, value)
@@ -293,6 +294,12 @@ def validate_headers(
                         raise ValueError
                 except ValueError:
                     raise MessageError("content-length is not a non-negative integer")
+                if (
+                    declared_content_length is not None
+                    and content_length != declared_content_length
+                ):
+                    raise MessageError("content-length values differ")
+                declared_content_length = content_length
                 if stream:
                     stream.expected_content_length = content_length
             elif key == b"transfer-encoding" and value != b"trailers":
